@@ -56,15 +56,25 @@ def main(tier, rep):
         # a HashClient that has given up on its server(s) (retry_attempts exhausted: nothing left in the rotation): every read
         # is a miss, nothing is raised; and an idle-expired pooled connection to a server that has died in the meantime
         giveup = []
+        # (TCP and UNIX-socket servers; batches of three keys and of one; then, after dead_timeout, the server is tried again)
         for kind in ("hash", "hashpooled"):
             for ra in (0, 1):
-                cfg = L.Cfg(kind=kind, ignore_exc=True, hash_ra=ra)
-                steps = []
-                for i in range(ra + 2):
-                    steps += [("call", "get", None, {("connect", 1): "refused"}, "all"), ("tick", 1)]
-                for op, _ in READS:
-                    steps.append(("call", op, None, None, "all"))
-                giveup.append(L.run_program(cfg, steps, miss=L.miss_result(cfg)))
+                for unix in (False, True):
+                    for nkeys in (3, 1):
+                        cfg = L.Cfg(kind=kind, ignore_exc=True, hash_ra=ra, unix=unix)
+                        steps = []
+                        for i in range(ra + 2):
+                            steps += [("call", "get", None, {("connect", 1): "refused"}, "all"), ("tick", 1)]
+                        for op, _ in READS:
+                            steps.append(("call", op, None, None, "all"))
+                        steps.append(("tick", 61))
+                        for op, _ in READS:
+                            steps.append(("call", op, None, None, "bytes"))
+                        L.NKEYS = nkeys
+                        try:
+                            giveup.append(L.run_program(cfg, steps, miss=L.miss_result(cfg)))
+                        finally:
+                            L.NKEYS = 3
         for kind in ("pooled", "hashpooled"):
             for op, _ in READS:
                 for fault in ({("sendall", 1): "reset"}, {("sendall", 1): "timeout"}, {("close", 1): "oserror"}):
